@@ -100,6 +100,9 @@ def generate(rng, tier):
         qs = []
         for pd in rng.sample(pds, 7):
             qs.append(f"L{fb(pd)},{fb(rng.choice(thrs))}")
+        # a preferred descent of exactly 0 (+0.0 and -0.0) with a valid threshold: both interfaces give the total duration
+        qs.append(f"L{fb(0.0)},{fb(thr_exact)}")
+        qs.append(f"L{0x80000000},{fb(50.0)}")
         qs.append(f"L{NANB},{fb(thr_exact)}")
         qs.append(f"L{fb(D * 0.5 + 1)},{rng.choice([NANB, PINF, NINF])}")
         out.append((f"stats {hx(skyb(blk, rng))} " + " ".join(qs), len(segs) > 0))
